@@ -399,13 +399,26 @@ func init() {
 	}})
 
 	register(&Check{ID: "C21", Title: "equivalent notations mean the same", Replay: cfgReplay("cfg-notation"), Run: func(c *CheckCtx) {
-		c.rule = "generated classes rendered twice: long notation ([\"A\",\"B\"], [T,\"NilClass\"], is_default, is_asterisk, TArray, Integer) and compact notation (\"A|B\", \"?T\" return, \"?T\"/DefaultT argument, \"*T\", \"[T]\", Int, OptionalT); programs call every generated method with fitting and non-fitting arguments, through union receivers and with blocks; modes plain, -i, --suggest and --llm-define --class= (rendered signatures). Oracle: byte-identical output. distinct_nontrivial = distinct (class set, program, mode) with non-empty output"
+		c.rule = "generated classes rendered twice: long notation ([\"A\",\"B\"], [T,\"NilClass\"], is_default, is_asterisk, TArray, Integer) and compact notation (\"A|B\", \"?T\" return, \"?T\"/DefaultT argument, \"*T\", \"[T]\", Int, OptionalT); programs call every generated method with fitting and non-fitting arguments, through union receivers and with blocks; every other class set has a method with an optional or rest parameter whose type is a class of another namespace (Store::Entry); modes plain, -i, --suggest and --llm-define --class= (rendered signatures). Oracle: byte-identical output. distinct_nontrivial = distinct (class set, program, mode) with non-empty output"
 		r := c.RNG.Sub(21)
 		var jobs []*cfgCase
 		for k := 0; k < c.N(40, 600); k++ {
 			classes := genClasses(r, 1+r.Intn(4), "")
 			long := map[string]string{}
 			compact := map[string]string{}
+			if r.Bool() {
+				// a parameter whose type is a class of another namespace, optional or rest
+				p := GParam{Types: []string{"Store::Entry"}}
+				if r.Bool() {
+					p.Default = true
+				} else {
+					p.Rest = true
+				}
+				classes[0].Methods = append(classes[0].Methods, &GMethod{Name: "nsm", Params: []GParam{p}, Ret: []string{"Int"}})
+				entry := `{"frame":"Store","class":"Entry","instance_methods":[{"name":"val","arguments":[],"return_type":{"type":["Integer"]}}],"class_methods":[{"name":"make","arguments":[],"return_type":{"type":["Self"]}}]}`
+				long["zz_store_entry.json"] = entry
+				compact["zz_store_entry.json"] = entry
+			}
 			rr := r.Sub(uint64(k))
 			for _, cl := range classes {
 				long["zz_"+strings.ToLower(cl.Name)+".json"] = cl.toJSON(Notation{}, rr, nil)
